@@ -89,6 +89,21 @@ check('C19', 'comparator-call counting on the structured paths of the instantiat
       'Partial: that each correct hint takes a search-free path is value-dependent and not decided. Trusted: ISO complexity clauses of lower_bound/upper_bound.',
       'DESIGN.md section 4, C19')
 
+check('C14', 'provenance analysis of every value stored into a pointer field / heap-pointer slot of the container classes (never derived from this) + record-layout facts + compile-time trait matrix',
+      'Decides the static argument for relocatability: no field of a container that claims the trait can hold an address of the object itself (so a byte copy is a faithful copy), the inline elements are inside the object, and each container claims the trait exactly when all its parts do (matrix incl. std::set backing => false).',
+      'Partial: the behaviour of the relocated object over further histories is the same object state and falls under C01/C03.',
+      'DESIGN.md section 4, C14')
+
+check('C15', 'per-language-standard analysis of the instantiated memory algorithms: all-paths-return (path engine), typestate clean-up rule on the construct loops, construct-before-destroy ordering, byte-copy who-may-call, compile-time signature witnesses, cross-standard effect-signature comparison',
+      'Decides for c++11/14/17/20 (different implementations selected) that every algorithm returns on all paths with the standard result type, destroys its partial output on throw, relocates as construct-then-destroy with the sources alive until all constructs succeeded, and byte-copies only when the trait allows.',
+      'Partial: value equality of the constructed objects is not decided.',
+      'DESIGN.md section 4, C15')
+
+check('C16', 'cross-configuration comparison of the instantiated program (structural hashes of every function body, API tables, effect signatures) over the lattice {c++11..20} x {extras on/off} x {NDEBUG on/off} + assert-purity + detection-idiom and constant witnesses',
+      'Decides the static slice of C16: AMC_NONSTD_FEATURES and NDEBUG leave every function body unchanged (assert expansions aside, which are side-effect free), pedantic mode only hides the documented extras, SmallSet is absent before C++17, member sets agree across standards except the documented ones, #if alternatives have equal effect signatures and equal compile-time constants, no function falls off its end.',
+      'Partial: transcript equality of whole programs and undiagnosed undefined behaviour are not decided.',
+      'DESIGN.md section 4, C16')
+
 PENDING = ['C01','C02','C03','C04','C05','C06','C07','C08','C09','C10','C11','C13','C14','C15','C16','C18','C19','C20']
 for p in PENDING:
     if p not in CHECKS:
